@@ -241,6 +241,8 @@ func (s *scheduler) point() {
 	}
 	if v > 0 {
 		s.preempts++
+		// reachability witness of the schedule exploration: some explored path has this many pre-emptions
+		s.in.ex.reached = append(s.in.ex.reached, fmt.Sprintf("preempted x%d", s.preempts))
 		s.switchTo(o[v-1])
 	}
 }
